@@ -20,6 +20,8 @@ pub enum PatClass {
     Utf8,
     /// small ASCII words
     Ascii,
+    /// few long patterns (8-24 units) over a tiny alphabet with long shared prefixes/suffixes
+    Long,
 }
 
 const CH1: &[char] = &['a', 'b', 'c', 'd', ' ', 'x', 'z', '0', '-', '\u{1}', '\u{7f}', '\u{0}'];
@@ -74,6 +76,7 @@ pub fn gen_spec(rng: &mut Rng, o: &GenOpts) -> (Spec, PatClass) {
                 PatClass::Wide,
                 PatClass::Utf8,
                 PatClass::Ascii,
+                PatClass::Long,
             ]),
             Variant::Charwise => *rng.pick(&[
                 PatClass::Dense,
@@ -82,6 +85,7 @@ pub fn gen_spec(rng: &mut Rng, o: &GenOpts) -> (Spec, PatClass) {
                 PatClass::Utf8,
                 PatClass::Utf8,
                 PatClass::Ascii,
+                PatClass::Long,
             ]),
         }
     };
@@ -163,6 +167,34 @@ pub fn gen_spec(rng: &mut Rng, o: &GenOpts) -> (Spec, PatClass) {
                 let len = rng.range(1, 4);
                 let s: String = (0..len).map(|_| rand_char(rng, small_cp)).collect();
                 set.insert(s.into_bytes());
+            }
+        }
+        PatClass::Long => {
+            let n = rng.range(2, 8);
+            let alpha: Vec<String> = match (variant, rng.below(3)) {
+                (_, 0) => vec!["a".into(), "b".into()],
+                (Variant::Charwise, 1) => vec!["a".into(), "é".into(), "世".into()],
+                _ => vec!["a".into(), "b".into(), "c".into(), "d".into()],
+            };
+            // a common stem, so that patterns share long prefixes; some are extensions of others
+            let stem: String = (0..rng.range(6, 12)).map(|_| rng.pick(&alpha).as_str()).collect();
+            for _ in 0..n * 3 {
+                if set.len() >= n {
+                    break;
+                }
+                let mut p = if rng.chance(2, 3) { stem.clone() } else { String::new() };
+                if rng.chance(1, 4) {
+                    if let Some(q) = set.iter().next().cloned() {
+                        p = String::from_utf8(q).unwrap_or_default();
+                    }
+                }
+                for _ in 0..rng.range(1, 14) {
+                    p.push_str(rng.pick(&alpha).as_str());
+                }
+                if rng.chance(1, 4) {
+                    p.push_str(&stem);
+                }
+                set.insert(p.into_bytes());
             }
         }
         PatClass::Ascii => {
